@@ -381,6 +381,12 @@ class Interp:
         self._ctor: Dict[str, Callable] = {}
         self._handling: List[ProgramError] = []
         self._yields: List[List[Any]] = []
+        try:
+            from .graphmodel import MODULES as _M
+
+            self.modules: Dict[str, Any] = dict(_M)
+        except Exception:
+            self.modules = {}
         self._mod_scopes: Dict[str, Scope] = {}
 
     # ------------------------------------------------------------------------------------------ public helpers
@@ -480,6 +486,8 @@ class Interp:
                     return SAFE_MODULES[root]
                 if mod is not None and hasattr(mod, orig):
                     return getattr(mod, orig)
+            if src in self.modules and orig is not None and hasattr(self.modules[src], orig):
+                return getattr(self.modules[src], orig)  # a modelled third-party function (sa/graphmodel.py, rule-supplied)
             if root == "rnapolis" and orig is not None:
                 return self._global(orig, src.split(".", 1)[1] if "." in src else module, node)
             if root in ("typing", "dataclasses", "enum", "functools") and orig is not None:
